@@ -67,7 +67,7 @@ func vT_contains(list []*PID, x *PID) bool {
 // number of Terminated messages naming `dead` that `dead` sent to `w`
 func vT_terminatedTo(w, dead *PID) int {
 	c := 0
-	for i := 0; i < len(vT_sent) && i < 8; i++ {
+	for i := 0; i < len(vT_sent) && i < 12; i++ {
 		s := vT_sent[i]
 		if t, ok := s.msg.(*Terminated); ok && s.to == w && s.from == dead && t.ActorPath() != nil && t.ActorPath().Equals(dead.Path()) {
 			c++
